@@ -41,6 +41,12 @@ MANIFEST = {
     "design_ref": "DESIGN.md sections 4 and 6 C13",
 }
 ALPHA = [",", "\\", "", "a", "1", "1.0", "a,", ",a", "\\,"]
+# hand-picked near-collisions: tuples that differ only in a numeric-looking suffix, in where the separator / escape sits, or in an empty cell
+ADVERSARIAL_TABLES = [
+    [("a", "1"), ("a", "1.0")], [("1", "a"), ("1.0", "a")], [("a", "1"), ("a", "1.0"), ("b", "1")], [("1", "1.0"), ("1.0", "1")],
+    [("a,", "b"), ("a", ",b")], [("a\\", ",b"), ("a", "\\,b")], [("\\", "a"), ("\\\\", "a")], [("", "a"), ("a", "")], [("", ""), (",", "")],
+    [("a", "b", ""), ("a", "", "b"), ("", "a", "b")], [("1", "0"), ("1.", "0"), ("1", ".0")], [("a", " 1"), ("a", "1")], [("A", "1"), ("a", "1")],
+]
 
 
 def setup():
@@ -161,14 +167,19 @@ def _wiring(acc, job):
 
     rnd = random.Random(job["seed"])
     r = acc.r
-    for t in range(job["count"]):
-        ncols = rnd.choice([2, 3])
-        ntup = rnd.randint(2, 3)
-        tuples = []
-        while len(tuples) < ntup:
-            tp = tuple(rnd.choice(ALPHA) for _ in range(ncols))
-            if tp not in tuples:
-                tuples.append(tp)
+    fixed = ADVERSARIAL_TABLES if job["id"].endswith("-0") else []
+    for t in range(job["count"] + len(fixed)):
+        if t < len(fixed):
+            tuples = [tuple(tp) for tp in fixed[t]]
+            ncols, ntup = len(tuples[0]), len(tuples)
+        else:
+            ncols = rnd.choice([2, 3])
+            ntup = rnd.randint(2, 3)
+            tuples = []
+            while len(tuples) < ntup:
+                tp = tuple(rnd.choice(ALPHA) for _ in range(ncols))
+                if tp not in tuples:
+                    tuples.append(tp)
         rows = [tp for tp in tuples for _ in range(2)]  # every tuple twice (labels 0 and 1)
         n = len(rows)
         y = [0, 1] * ntup
